@@ -63,7 +63,8 @@ COQ_HEADER = (
     "  | _, _ => None end.\n"
     "Definition hist_ok (c : cfg) (s eps epserr : Qc) (dn : positive) (hn : Qc) (t0 : Z) (dt0 : option Z) (tol0 : bool)\n"
     "  (ops : list op) (obs : list (Z * option Z * option (dir * Qc) * Z)) (bad : option op)\n"
-    "  (gates : list (Z * Z * Qc)) (err : Qc) : bool :=\n"
+    "  (gruns : list (Qc * list (Z * Z))) (err : Qc) : bool :=\n"
+    "  let gates := flat_map (fun r => map (fun b => (fst b, snd b, fst r)) (snd r)) gruns in\n"
     "  match init t0 dt0 tol0 with None => false | Some st0 =>\n"
     "  match follow c s eps ops obs st0 with None => false | Some st =>\n"
     "    gclose eps (expand c (log st)) gates && close epserr (err_value dn hn (errlog st)) err\n"
@@ -174,7 +175,7 @@ def gen_history(rng, quick):
     def rand_dt():
         return rng.choice([1, 2, 4, 8]) if pow2 else rng.choice([1, 2, 3, 4, 5, 6, 8, 12])
 
-    mode = rng.choice(["dt", "dt", "dt", "tol", "none"])
+    mode = rng.choice(["dt"] * 15 + ["tol"] * 3 + ["none"] * 2)
     dt0 = rand_dt() if mode == "dt" else None
     tol0 = mode == "tol"
     if rng.random() < 0.03:
@@ -183,11 +184,12 @@ def gen_history(rng, quick):
     nops = rng.randint(1, 5)
     for _ in range(nops):
         kind = rng.choice(["upd", "upd", "upd", "at", "step", "sweep"])
-        order = rng.choice([1, 2, 2, 4]) if rng.random() > 0.04 else rng.choice([0, 3, 5])
-        dtarg = rand_dt() if rng.random() < (0.3 if dt0 else 0.6) else None
+        order = rng.choice([1, 2, 2, 4]) if rng.random() > 0.02 else rng.choice([0, 3, 5])
+        # mostly well-formed calls; the must-be-rejected combinations (dt and tol, neither, ...) stay a minority
+        dtarg = rand_dt() if rng.random() < {"dt": 0.3, "tol": 0.06, "none": 0.93}[mode] else None
         if kind == "upd":
             ops.append({"k": "upd", "span": rng.choice([0, 1, 2, 3, 5, 7, 8, 11, 16, 23, rng.randint(0, 40)]),
-                        "back": rng.random() < 0.04, "dt": dtarg, "order": order,
+                        "back": rng.random() < 0.025, "dt": dtarg, "order": order,
                         "tol": (rng.random() < 0.5) if (dtarg is None and rng.random() < 0.25) else None})
         elif kind == "at":
             n = rng.randint(1, 4)
@@ -549,7 +551,13 @@ def machine_stream(ctx, only=None):
         obs = "[" + "; ".join(
             f"({zlit(t)}, {optz(c)}, {'None' if q is None else '(Some (' + dirl(q[0]) + ', ' + qcl(q[1]) + '))'}, {zlit(ng)})"
             for t, c, q, ng in r["obs"]) + "]"
-        gates = "[" + "; ".join(f"({zlit(a)}, {zlit(b)}, {qcl(x)})" for a, b, x in r["gates"]) + "]"
+        runs = []  # consecutive gates with the same time share one rational literal
+        for a, b, x in r["gates"]:
+            if runs and runs[-1][0] == x:
+                runs[-1][1].append((a, b))
+            else:
+                runs.append((x, [(a, b)]))
+        gates = "[" + "; ".join(f"({qcl(x)}, [" + "; ".join(f"({zlit(a)}, {zlit(b)})" for a, b in bs) + "])" for x, bs in runs) + "]"
         epserr = qcl(Fraction(1, 10**12) * (1 + abs(r["err"])))
         expr = (f"hist_ok {cfgl(h['L'], h['cyclic'])} {s_lit} {eps} {epserr} {D}%positive {qcl(HN)} {zlit(h['t0'])} "
                 f"{optz(h['dt0'])} {blit(h['tol0'])} [{'; '.join(r['ops'])}] {obs} "
@@ -1075,6 +1083,18 @@ def oracle_stream(ctx):
             ctx.violation("tebd.t:not_exactly_T", f"after evolving to T={targets[-1][0]!r} the clock reads {tb.t!r}", desc)
         if getattr(tb, "_queued_sweep", None):
             ctx.violation("tebd:queue_not_drained", "a sweep is still queued after update_to / at_times", desc)
+        if cyclic and L % 2 == 1:
+            # odd periodic chains: (0,1) and (L-1,0) share a site, so merging two adjacent right sweeps (which the
+            # queue does from the second full step on) is a different, equally first-order, product; the explicit
+            # reference below is only the same formula while no merge happens
+            tt, merges = t0, False
+            for T, dtu, o in targets:
+                if T > tt and math.ceil(Fraction(T - tt) / Fraction(dtu)) - 1 >= 2:
+                    merges = True
+                tt = T
+            if merges:
+                ctx.bump("oracle_odd_periodic_merge_skipped")
+                continue
         v, vs, t = v0, v0, t0
         for (T, dtu, o), psi in zip(targets, got_states):
             v = ref.update(v, t, T, dtu, o)
@@ -1345,34 +1365,45 @@ def normsite_stream(ctx):
 
 
 def convergence_stream(ctx):
-    """(thorough) error against exact evolution shrinks like dt ** order"""
+    """(thorough, test) error against exact evolution shrinks like dt ** order.  Periodic chains: an MPS without
+    canonical form doubles its bonds with every sweep, so only orders 1, 2 with one / two / four steps are fitted."""
     import quimb.tensor as qtn
     from quimb.tensor.tn1d.tebd import TEBD
 
     nrng = np.random.default_rng(ctx.seed + 41)
-    for L, cyclic in [(4, False), (5, False), (6, False), (4, True), (6, True), (5, True)]:
-        H2, H1 = make_case(nrng, ctx.rng, L, cyclic, True, True)
+    for L, cyclic in [(4, False), (5, False), (6, False), (7, False), (4, True), (6, True), (3, True), (5, True)]:
+        H2, H1 = make_case(nrng, ctx.rng, L, cyclic, True, True, uniform_h1=cyclic)
         for k in H2:
-            H2[k] = H2[k] / 2
+            H2[k] = H2[k] * (0.2 if cyclic else 0.5)
+        if H1 is not None:
+            H1 = {k: v * (0.2 if cyclic else 0.5) for k, v in H1.items()}
         ham = build_ham(ctx.rng, L, cyclic, H2, H1)
         terms = ref_pair_terms(L, cyclic, H2, H1)
         ref = DenseRef(L, cyclic, terms, False)
-        p0 = qtn.MPS_rand_state(L, 2, dtype=complex, cyclic=cyclic, seed=L)
-        exact = ref.exact(dense_vec(p0), 0.5)
-        for order in (1, 2, 4):
-            dts = [0.1, 0.05, 0.025] if order < 4 else [0.25, 0.125, 0.0625]
-            errs = []
+        p0 = qtn.MPS_rand_state(L, 1 if cyclic else 2, dtype=complex, cyclic=cyclic, seed=L)
+        T = 0.4 if cyclic else 0.5
+        exact = ref.exact(dense_vec(p0), T)
+        for order in ((1, 2) if cyclic else (1, 2, 4)):
+            dts = [0.4, 0.2, 0.1] if cyclic else ([0.1, 0.05, 0.025] if order < 4 else [0.25, 0.125, 0.0625])
+            errs, capped = [], False
             for dt in dts:
-                tb = TEBD(p0, ham, dt=dt, progbar=False, split_opts={"cutoff": 0.0})
-                tb.update_to(0.5, order=order)
+                tb = TEBD(p0, ham, dt=dt, progbar=False,
+                          split_opts={"cutoff": 1e-12, "max_bond": 2 * BOND_CAP} if cyclic else {"cutoff": 0.0})
+                tb.update_to(T, order=order)
+                capped = capped or (cyclic and tb._pt.max_bond() >= 2 * BOND_CAP)
                 errs.append(np.linalg.norm(dense_vec(tb.pt) - exact))
+            if capped:
+                ctx.bump("slope_inconclusive_bond_cap")
+                continue
             slope = np.polyfit(np.log(dts), np.log(np.maximum(errs, 1e-300)), 1)[0]
             # odd periodic chains: the colouring is not a symmetric splitting, only first order is required
             need = 1 if (cyclic and L % 2 == 1) else order
             ctx.count(("slope", L, cyclic, order), True)
             ctx.bump("slope_fits")
-            ctx.extra.setdefault("slopes", []).append({"L": L, "cyclic": cyclic, "order": order, "slope": round(float(slope), 2)})
-            if slope < need - 0.35 and errs[-1] > 1e-10:
+            ctx.extra.setdefault("slopes", []).append({"L": L, "cyclic": cyclic, "order": order, "slope": round(float(slope), 2),
+                                                       "errors": [float(f"{e:.3e}") for e in errs]})
+            slack = 0.5 if (cyclic and L % 2 == 1) else 0.4  # odd periodic: few coarse steps only, error must still shrink
+            if slope < need - slack and errs[-1] > 1e-9:
                 ctx.violation(f"tebd:convergence_order:order={order}" + (":cyclic" if cyclic else ""),
                               f"error vs exact evolution scales like dt^{slope:.2f}, expected dt^{need}",
                               {"L": L, "cyclic": cyclic, "order": order, "dts": dts, "errors": [float(e) for e in errs]})
